@@ -70,7 +70,9 @@ def cache_load(url):
             exc.args = (msg,)  # needs to be a tuple
             raise exc
 
-        with open(cache_file, "w") as local_file:
+        # The data has been decoded as UTF-8; do not depend on the locale's
+        # encoding when writing the cache copy.
+        with open(cache_file, "w", encoding="utf-8") as local_file:
             local_file.write(str(data))
 
     return cache_file
